@@ -37,6 +37,20 @@ func c02Eval(c *Config, t TreeCase) string {
 		if !bytes.Equal(got, want) {
 			return fmt.Sprintf("wire image differs from the reference encoding at byte %d: library %x reference %x", firstDiff(got, want), got, want)
 		}
+		// the exported SerializeTo with a destination larger than the message (a reusable scratch
+		// buffer), pre-filled with 0xFF
+		for _, extra := range []int{0, 1, 4, 100} {
+			buf := bytes.Repeat([]byte{0xff}, len(want)+extra)
+			if err := m.SerializeTo(buf); err != nil {
+				return "SerializeTo failed: " + err.Error()
+			}
+			if !bytes.Equal(buf[:len(want)], want) {
+				return fmt.Sprintf("SerializeTo into a buffer %d bytes longer than the message differs from the reference encoding at byte %d", extra, firstDiff(buf[:len(want)], want))
+			}
+			if int(m.Header.MessageLength) != len(want) {
+				return fmt.Sprintf("after SerializeTo into a buffer %d bytes longer than the message Header.MessageLength is %d, the message has %d bytes", extra, m.Header.MessageLength, len(want))
+			}
+		}
 		if wb, err := WireViaWriteTo(m); err != nil || !bytes.Equal(wb, want) {
 			return fmt.Sprintf("bytes written by WriteTo (after an unrelated write reused the serialisation buffer) differ from the reference encoding at byte %d (err %v)", firstDiff(wb, want), err)
 		}
@@ -344,6 +358,14 @@ func c02Sweeps(ctx *ev.Ctx) {
 			}
 		}
 	})
+	// boundary values explicitly (both tiers): sign / era / NaN edges
+	for _, v := range []uint32{0, 1, 2, 0x7ffffffe, 0x7fffffff, 0x80000000, 0x80000001, 0xfffffffe, 0xffffffff, 0x7f800000, 0x7f800001, 0xff800000, 0x00800000, 0x007fffff,
+		2208988800 - 1, 2208988800, 2208988800 + 1, 2085978496 - 1, 2085978496, 2085978496 + 1} {
+		b := []byte{byte(v >> 24), byte(v >> 16), byte(v >> 8), byte(v)}
+		if s := check32(b, v); s != "" {
+			fail(s)
+		}
+	}
 	ctx.EvalN(int64(total)*7, int64(total)*7)
 	ctx.Set("sweep_32bit_payloads_per_type", total)
 	ctx.Set("sweep_32bit_types", []string{"Unsigned32", "Integer32", "Float32", "Enumerated", "Time", "IPv4", "Address(family 1)"})
